@@ -253,6 +253,11 @@ impl TransactionContext {
         self.handle.read().can_commit()
     }
 
+    /// Whether the transaction is still running (VACUUM aborts every open transaction).
+    pub(crate) fn is_active(&self) -> bool {
+        self.handle.read().is_active()
+    }
+
     pub(crate) fn snapshot(&self) -> Snapshot {
         self.handle.read().snapshot().clone()
     }
